@@ -91,6 +91,18 @@ func legGates(c *Ctx) {
 			}
 		}
 	}
+	// a loop inside the body of a REPEATED group, with only nullable things after it in the body: what follows the
+	// loop is the start of the next iteration as much as what follows the group
+	for _, b := range []string{`[ab]a*`, `[ab]a*c*`, `([ab])(a*)c?`, `[ab]a+(?:c*|e*)`, `a*b?`, `[ab]a*?c*`} {
+		for _, q := range []string{`{2}`, `{2,}`, `*`, `+`, `{2,}?`, `{1,3}`} {
+			for _, f := range []string{`d`, `$`, ``} {
+				if c.Thorough || c.Rng.Chance(35) {
+					pats = append(pats, patCase{pat: `(?:` + b + `)` + q + f, alpha: []rune{'a', 'b', 'c', 'd', 'e'}},
+						patCase{pat: `x(?>(?:` + b + `)` + q + `)` + f, alpha: []rune{'a', 'b', 'c', 'd', 'x'}})
+				}
+			}
+		}
+	}
 	pats = append(pats, genPatterns(c.Rng, c.N(300, 8000), true)...)
 	for _, h := range harvestedPatterns() {
 		if c.Rng.Chance(c.N(30, 100)) {
